@@ -8,7 +8,7 @@ from __future__ import annotations
 
 import re
 
-_TOK = re.compile(r'\s*(<<|>>|\|->|:>|@@|[\[\]{}(),]|-?\d+|"(?:[^"\\]|\\.)*"|[A-Za-z_][A-Za-z0-9_]*)')
+_TOK = re.compile(r'\s*(<<|>>|\|->|:>|@@|\.\.|[\[\]{}(),]|-?\d+|"(?:[^"\\]|\\.)*"|[A-Za-z_][A-Za-z0-9_]*)')
 
 
 class _P:
@@ -77,6 +77,10 @@ class _P:
         if t.startswith('"'):
             return bytes(t[1:-1], "utf-8").decode("unicode_escape")
         if re.fullmatch(r"-?\d+", t):
+            if self.peek() == "..":           # an interval set a..b
+                self.eat()
+                hi = int(self.eat())
+                return frozenset(range(int(t), hi + 1))
             return int(t)
         if t == "TRUE":
             return True
